@@ -40,7 +40,7 @@ def plan_vft(case):
 
 
 def plan_impl(case, pid):
-    m = case["input"]["mods"][0]
+    m = case["input"]["mods"][-1]
     o = case["oracle"]
     acts = []
     if pid == "C05":
@@ -55,6 +55,8 @@ def plan_impl(case, pid):
             acts.append({"k": "single_enum", "ty": m["path"] + ["E"], "addr": o["esingle"]})
         for e in o["evals"]:
             acts.append({"k": "eval", "module": m["path"], "name": e["name"], "addr": e["addr"]})
+        for e in o.get("gevals", []):
+            acts.append({"k": "eval", "module": ["g"], "name": e["name"], "addr": e["addr"]})
     return acts
 
 
